@@ -201,3 +201,11 @@ def integer_input_cases(classes, methods_of, name_fmt='%s'):
             solve.fact((name_fmt % clsname) + ',%s:integer-typed-x-gives-the-result-of-float-x[%d cases]' % (method, cnt), not bad,
                        kind='bounded', note=str(bad[:1])[:300])
     return out
+
+
+def defaults_facts(keys):
+    """one executed fact per entry point: its default arguments are the documented ones (table in ndvc.concrete)"""
+    from ndvc.concrete import default_argument_mismatches
+    for key in keys:
+        bad = default_argument_mismatches([key])
+        solve.fact('documented-default-arguments:%s' % key, not bad, note=str(bad)[:300])
